@@ -226,8 +226,13 @@ def run(R):
             val = c.args[1].get("v") if len(c.args) > 1 and c.args[1]["k"] == "const" else None
             key = "%s|%s|%s" % (owner.spath, short(c.name).split("::")[-1], val)
             allowed = {"sqlgrep::execute|store|true", "sqlgrep::main_normal|store|false"}
-            if key in allowed and f.target == "bin":
-                R.ok("C19.flag", key, "listed writer", c.loc())
+            # the Ctrl-C handler, wherever it is installed from: the closure handed to ctrlc::set_handler storing `false`
+            handler = f.kind == "Closure" and f.target == "bin" and val == "false" and short(c.name).endswith("::store") and \
+                any(re.search(r"^ctrlc::set_handler$", short(c2.name)) and f.key in (c2.func.get("closure_args") or []) or
+                    (re.search(r"^ctrlc::set_handler$", short(c2.name)) and any(f.key.endswith(x) or x == f.raw.get("key") for x in (c2.func.get("closure_args") or [])))
+                    for c2 in owner.calls)
+            if (key in allowed or handler) and f.target == "bin":
+                R.ok("C19.flag", key, "listed writer" if key in allowed else "the closure handed to ctrlc::set_handler", c.loc())
             else:
                 R.violation("C19.flag", key, "unexpected writer of an atomic flag: %s in %s" % (short(c.name), f.path), [c.loc()])
     # readers: only the three input loops may sample the flag; a load deeper down (e.g. inside the printer) splits a line's output
